@@ -566,5 +566,7 @@ def c_system_xi(k):
         xiF = sysm.xi_F(tp, tq, qa, qb, ua, ub)
         k.prove("one normal row per contact, two tangential rows per contact", len(xiN) == 2 and len(xiF) == 4)
         for c in (c1, c2):
+            k.prove_eq(f"System.e_N holds contact {c.name}'s restitution coefficient at its own la_NDOF (Moreau reads it there)", np.asarray(sysm.e_N, dtype=object)[c.la_NDOF], c.e_N)
+            k.prove_eq(f"System.e_F holds contact {c.name}'s coefficients at its own la_FDOF", np.asarray(sysm.e_F, dtype=object)[c.la_FDOF], c.e_F)
             k.prove_eq(f"xi_N of contact {c.name} = g_N_dot(post) + e_N g_N_dot(pre) with its own e_N", xiN[c.la_NDOF], c.g_N_dot(tq, qb[c.qDOF], ub[c.uDOF]) + c.e_N * c.g_N_dot(tp, qa[c.qDOF], ua[c.uDOF]))
             k.prove_eq(f"xi_F of contact {c.name} = gamma_F(post) + e_F gamma_F(pre) with its own e_F", xiF[c.la_FDOF], c.gamma_F(tq, qb[c.qDOF], ub[c.uDOF]) + c.e_F * c.gamma_F(tp, qa[c.qDOF], ua[c.uDOF]))
